@@ -6,7 +6,9 @@ from props.enginea import run_engine_a
 LEVEL = "proof"
 FNS = ["normalize", "normalize1", "from_man_exp", "from_int", "mpf_add", "mpf_sub", "mpf_mul", "gmpy_mpf_mul",
        "mpf_div", "mpf_sqrt", "mpf_pos", "mpf_neg", "mpf_abs", "mpf_mul_int", "mpf_rdiv_int", "from_rational",
-       "mpf_sum", "mpf_perturb", "isqrt", "sqrtrem"]
+       "mpf_sum", "mpf_perturb", "isqrt", "sqrtrem",
+       # the pure-Python integer square roots behind mpf_sqrt, step by step (Algo/Isqrt.v; seeds taken from the live source)
+       "isqrt_small_newton", "isqrt_fast_smallx", "isqrt_fast_bigx", "sqrtrem_fix"]
 TAGS_EXTRA = {"VALUE"}
 TAGS = {"ROUND", "VALUE"}
 
